@@ -136,3 +136,19 @@ def register(PROPS, CLASSIFIERS, REPLAY_RUNNERS):
     # ------------------------------------------------------------------ C05: the pure API, modelled (Model/Pure.lean)
     PROPS["C05"]["q_checks"].append(_lazy("c05pure", "c05_pure_tie"))
     PROPS["C05"].setdefault("lake_targets", []).append("driver_pure")
+
+    # ------------------------------------------------------------------ C11: "the same whether recorded or restored from a snapshot"
+    def c11_history_after_restore(tier, seed):
+        """the snapshot cut-point machinery of C12 on history-heavy machines: a machine restored at any quiescent cut
+        resolves later history targets exactly like the uninterrupted run"""
+        from . import c12
+        old = c12.PROFILES
+        c12.PROFILES = ("histdirected", "history")
+        try:
+            r = c12.c12_cut_points(tier, seed, n=25)
+        finally:
+            c12.PROFILES = old
+        r["what"] = "history after a snapshot round trip (C11): " + r["what"]
+        return r
+    PROPS["C11"].setdefault("q_checks", []).append(c11_history_after_restore)
+    PROPS["C11"].setdefault("lake_targets", []).append("driver_snap")
